@@ -6,6 +6,7 @@ every replay script, where it runs as `__main__` (pickle then resolves `__main__
 and replay share one oracle.
 """
 import copy
+import functools
 import pickle
 
 import param
@@ -25,6 +26,13 @@ class Sub(param.Parameterized):
     @param.depends('x', watch=True)
     def on_x(self):
         self.calls.append(('Sub.on_x', self.x))
+
+    # bound methods of the sub-object registered as watcher callbacks on the PARENT's parameters (family Wat)
+    def cb_add1(self, *events):
+        _effect(self, 'add1', 'othersub', events)
+
+    def cb_mul2(self, *events):
+        _effect(self, 'mul2', 'othersub', events)
 
 
 # hook called from inside the watcher callbacks of the model classes (copies taken in the middle of a dispatch);
@@ -98,6 +106,89 @@ class Multi(Plain):
         _hook(self, 'on_w')
 
 
+# ---- family "watcher callbacks of every callable shape x watcher precedence" (class Wat) ---------------------------
+def _effect(target, eff, tag, events):
+    """What every watcher callback of the family does: an order-sensitive step on its own target's state
+    (add1: t -> t + 1, mul2: t -> 2 t; the depends methods of Wat: t -> -t, t -> t + 10) and one entry in the
+    invocation log of the object the events belong to (so the dispatch order of all callbacks is observable)."""
+    names = [e.name for e in events]
+    step = (lambda t: t + 1) if eff == 'add1' else (lambda t: t * 2)
+    if isinstance(target, Rec):
+        target.total = step(target.total)
+        target.log.append((tag + '.' + eff, names, target.total))
+        now = target.total
+    elif isinstance(target, Sub):
+        target.y = step(target.y)
+        target.calls.append((tag + '.' + eff, names, target.y))
+        now = target.y
+    else:
+        target.acc = step(target.acc)
+        now = target.acc
+    if events:
+        events[0].obj.calls.append((tag + '.' + eff, names, now))
+
+
+def fn_eff(eff, tag, *events):
+    """module-level (picklable) function used through functools.partial / from a lambda; acts on the object
+    the events belong to"""
+    _effect(events[0].obj, eff, tag, events)
+
+
+class Rec:
+    """plain (non-Parameterized) object: its bound methods (named like methods of Wat on purpose) and the object
+    itself (callable) serve as watcher callbacks; with an `owner` the call acts on the owner"""
+
+    def __init__(self, eff='add1', owner=None):
+        self.eff = eff
+        self.owner = owner
+        self.total = 3
+        self.log = []
+
+    def cb_add1(self, *events):
+        _effect(self, 'add1', 'other', events)
+
+    def cb_mul2(self, *events):
+        _effect(self, 'mul2', 'other', events)
+
+    def __call__(self, *events):
+        if self.owner is None:
+            _effect(self, self.eff, 'cobj', events)
+        else:
+            self.log.append(('cobjown.' + self.eff, [e.name for e in events]))
+            _effect(self.owner, self.eff, 'cobjown', events)
+
+
+class Wat(Plain):
+    """user watchers of every callable shape and with explicit precedences, next to depends(watch=True) methods
+    (precedence -1) on the same parameters; all callbacks have order-sensitive effects on `acc`"""
+    p = param.Number(default=1)
+    q = param.Number(default=1)
+    acc = param.Number(default=3)
+
+    @param.depends('p', watch=True)
+    def dep_p(self):
+        self.acc = -self.acc
+        self.calls.append(('dep_p', self.p, self.acc))
+
+    @param.depends('q', watch=True)
+    def dep_q(self):
+        self.acc = self.acc + 10
+        self.calls.append(('dep_q', self.q, self.acc))
+
+    @param.depends('p', 'q', watch=True)
+    def dep_pq(self):
+        self.calls.append(('dep_pq', self.p, self.q, self.acc))
+
+    def cb_add1(self, *events):
+        _effect(self, 'add1', 'meth', events)
+
+    def cb_mul2(self, *events):
+        _effect(self, 'mul2', 'meth', events)
+
+    def cb_eff(self, eff, *events):
+        _effect(self, eff, 'pbound', events)
+
+
 # ordinary attributes to be set by Attr.__init__ BEFORE Parameterized.__init__ runs: [(name, value kind)]
 _EARLY = []
 
@@ -167,7 +258,7 @@ def fn_watch(*events):
         e.obj.calls.append(('fn_watch', e.name, e.new))
 
 
-CLASSES = {'Plain': Plain, 'Main': Main, 'Multi': Multi, 'Attr': Attr, 'SlotFirst': SlotFirst, 'SlotLast': SlotLast, 'SlotDeep': SlotDeep,
+CLASSES = {'Plain': Plain, 'Main': Main, 'Multi': Multi, 'Wat': Wat, 'Attr': Attr, 'SlotFirst': SlotFirst, 'SlotLast': SlotLast, 'SlotDeep': SlotDeep,
            'SlotSub': SlotSub}
 SLOT_CLASSES = ('SlotFirst', 'SlotLast', 'SlotDeep', 'SlotSub')
 
@@ -540,15 +631,94 @@ CTX_PRE_OPS = {'set': pre_set, 'watch': pre_watch, 'watchm': op_watchm, 'upd2': 
 # (no operation here changes two parameters of one multi-parameter dependency: that is the Multi family's business)
 CTX_POST_OPS = {'set': post_set, 'same': op_same, 'updvp': op_updvp, 'setw': op_setw, 'setp': op_setp}
 
+# ---- family "callable shapes x precedence" (class Wat) ----------------------------------------------------------
+# operation  w:<shape>.<effect>@<precedence>:<parameters>   registers a value watcher with param.watch on the instance
+#   shape    meth      bound method of the instance                      (o.cb_add1)
+#            pbound    functools.partial around a bound method of it     (partial(o.cb_eff, 'add1'))
+#            pfunc     functools.partial around a module-level function  (partial(fn_eff, 'add1', 'pfunc'))
+#            lam       lambda closing over the instance (not picklable: copy.deepcopy only)
+#            other     bound method of ANOTHER (plain) object kept in o.recs; the method is named like one of o's
+#            othersub  bound method of the attached Parameterized sub-object o.a (attached first if there is none)
+#            cobj      callable object kept in o.recs
+#            cobjown   callable object holding a reference to the instance and acting on it
+#   effect   add1 | mul2 (order-sensitive);  precedence 0 | 1 | 2;  parameters p | q | pq (one watcher of both)
+W_SHAPES = ('meth', 'pbound', 'pfunc', 'lam', 'other', 'othersub', 'cobj', 'cobjown')
+W_EFFECTS = ('add1', 'mul2')
+W_PRECS = (0, 1, 2)
+W_PARAMS = ('p', 'q', 'pq')
+UNPICKLABLE_SHAPES = ('lam',)
+
+
+def make_callback(o, shape, eff):
+    if shape == 'meth':
+        return getattr(o, 'cb_' + eff)
+    if shape == 'pbound':
+        return functools.partial(o.cb_eff, eff)
+    if shape == 'pfunc':
+        return functools.partial(fn_eff, eff, 'pfunc')
+    if shape == 'lam':
+        return lambda *events: fn_eff(eff, 'lam', *events) if o is not None else None
+    if shape in ('other', 'cobj', 'cobjown'):
+        rec = Rec(eff, o if shape == 'cobjown' else None)
+        if 'recs' not in o.__dict__:
+            o.recs = []
+        o.recs.append(rec)
+        return getattr(rec, 'cb_' + eff) if shape == 'other' else rec
+    if shape == 'othersub':
+        if o.a is None:
+            o.a = Sub(name='S', x=1)
+        return getattr(o.a, 'cb_' + eff)
+    raise ValueError(shape)
+
+
+def w_op(shape, eff='add1', prec=0, params='p'):
+    return 'w:%s.%s@%d:%s' % (shape, eff, prec, params)
+
+
+def parse_w(arg):
+    head, params = arg.split(':')
+    se, prec = head.split('@')
+    shape, eff = se.split('.')
+    return shape, eff, int(prec), params
+
+
+def op_w(o, arg):
+    shape, eff, prec, params = parse_w(arg)
+    if not isinstance(o, Wat):
+        return SKIP
+    cb = make_callback(o, shape, eff)
+    return _try(lambda: o.param.watch(cb, list(params), precedence=prec))
+
+
+def op_setq(o):
+    return _set(o, 'q', o.q + 1)
+
+
+def op_updqp(o):
+    """one update naming q before p (the dispatch order is decided by precedence, not by the order of the events)"""
+    return _try(lambda: o.param.update(q=o.q + 1, p=o.p + 1))
+
+
+def op_trigp(o):
+    return _try(lambda: o.param.trigger('p'))
+
+
+WAT_PRE_OPS = {'w': op_w, 'set': pre_set, 'attach': pre_attach}
+WAT_POST_FIXED = {'setp': op_setp, 'setq': op_setq, 'upd2': op_upd2, 'updqp': op_updqp, 'batch2': op_batch2,
+                  'trigp': op_trigp}
+# watchers registered AFTER the copy (their precedence competes with that of the copied watchers)
+WAT_POST_W = (w_op('meth', 'add1', 1, 'p'), w_op('pbound', 'mul2', 0, 'pq'))
+WAT_POST = tuple(WAT_POST_FIXED) + WAT_POST_W
+
 # the alphabets of the slotted model classes (the other operations are covered on Plain / Main)
 SLOT_PRE_OPS = {'slot': pre_slot, 'slotpart': pre_slotpart, 'attr': pre_attr, 'set': pre_set, 'watch': pre_watch}
 SLOT_POST_OPS = {'slot': post_slot, 'attr': post_attr, 'set': post_set, 'mut': post_mut}
 _ALL_PRE = dict(PRE_OPS, **SLOT_PRE_OPS)
 _ALL_POST = dict(POST_OPS, **SLOT_POST_OPS)
-for _t in (ATTR_PRE_OPS, MULTI_PRE_OPS, CTX_PRE_OPS):
+for _t in (ATTR_PRE_OPS, MULTI_PRE_OPS, CTX_PRE_OPS, WAT_PRE_OPS):
     for _k, _f in _t.items():
         assert _ALL_PRE.setdefault(_k, _f) is _f, _k
-for _t in (ATTR_POST_OPS, MULTI_POST_OPS, CTX_POST_OPS):
+for _t in (ATTR_POST_OPS, MULTI_POST_OPS, CTX_POST_OPS, WAT_POST_FIXED, {'w': op_w}):
     for _k, _f in _t.items():
         assert _ALL_POST.setdefault(_k, _f) is _f, _k
 
@@ -627,6 +797,8 @@ def plain(x):
         return [type(x).__name__, repr(bytes(x))]
     if isinstance(x, Box):
         return {'<Box>': plain(x.items)}
+    if isinstance(x, Rec):
+        return {'<Rec>': x.eff, 'total': x.total, 'log': plain(x.log), 'owner': plain(x.owner)}
     if isinstance(x, param.Parameter):
         return {'<Parameter>': type(x).__name__, 'meta': _meta(x)}
     if hasattr(x, '__self__') and hasattr(x, '__func__'):      # bound method: which object is it bound to?
@@ -755,6 +927,12 @@ def _mutables(o):
                 return
             found[id(x)] = where + ':Box'
             walk(x.items, where + '.items')
+        elif isinstance(x, Rec):
+            if id(x) in found:
+                return
+            found[id(x)] = where + ':Rec'
+            walk(x.log, where + '.log')
+            walk(x.owner, where + '.owner')
         elif isinstance(x, tuple) and depth[0] < 20:    # immutable itself, may hold mutable objects
             depth[0] += 1
             for y in x:
